@@ -240,7 +240,7 @@ func init() {
 }
 
 func init() {
-	claim("C01", "V1", "V2", "V3", "V4", "V5", "V6", "V7", "P2")
+	claim("C01", "V1", "V2", "V3", "V4", "V5", "V6", "V7", "V8", "V9", "P2")
 }
 
 func init() {
